@@ -216,6 +216,57 @@ def uniq(ctx, crate):
     return n
 
 
+def uniq_methods(ctx, crate):
+    """Every other function of the crate that produces a uniq number (name contains `uniq`, takes a
+    hash): its result, with the receiver's fields read from Layer::new(d), is bit-for-bit the free
+    function's, for every depth and all hashes (same symbolic classes as the round trip)."""
+    from rules.c03 import layer_constants
+    clause = "uniq"
+    free = {"nested::to_uniq": None, "nested::to_uniq_ivoa": None}
+    cands = []
+    for path in sorted(crate.bodies):
+        last = path.rsplit("::", 1)[-1]
+        if "uniq" not in last or "{" in path or path.startswith("nested::tests") or "::tests::" in path: continue
+        if path in ("nested::to_uniq", "nested::to_uniq_ivoa", "nested::from_uniq", "nested::from_uniq_ivoa"): continue
+        if last.endswith("_unsafe") and path.startswith("nested::"): continue      # reached through the free functions above
+        cands.append(path)
+    consts = layer_constants(ctx, crate, clause="uniq-layer-constants") if any(p.startswith("nested::Layer::") for p in cands) else {}
+    fields = [f["name"] for f in crate.adts["nested::Layer"]["variants"][0]["fields"]]
+    n = 0
+    for path in cands:
+        b = crate.body(path)
+        last = path.rsplit("::", 1)[-1]
+        ref = "nested::to_uniq_ivoa" if "ivoa" in last else "nested::to_uniq"
+        pn = b.param_names()
+        if not (path.startswith("nested::Layer::") and last.startswith("to_uniq") and pn[:1] == ["self"] and "hash" in pn):
+            ctx.undecided(clause, "%s:agrees-with-free-function" % path, "a function named like a uniq conversion that this rule does not know how to compare (parameters %s)" % pn, at=b.span); continue
+        bad = None
+        for d in range(30):
+            if d not in consts: bad = (d, "no Layer::new constants"); break
+            sub = {('fld', ('deref', ('p', 'self')), i): consts[d][f] for i, f in enumerate(fields) if consts[d][f][0] == 'c'}
+            e1 = Engine(crate); e1.subst = sub
+            r1 = e1.run(path, [('p', 'self'), ('p', 'hash')])
+            e2, r2 = run_fn(crate, ref, [C('u8', d), ('p', 'hash')])
+            ctx.functions |= e1.visited_fns | e2.visited_fns
+            if not (r1.returns and r2.returns): bad = (d, "no value"); break
+            tops = range(12) if "ivoa" in last else [None]
+            for top in tops:
+                if top is None: hv = sym_bits('h', 64, 2 * d + 4)
+                else:
+                    low = sym_bits('h', 64, 2 * d)
+                    hv = [low[k] if k < 2 * d else (ONE if (top >> (k - 2 * d)) & 1 and k - 2 * d < 4 else ZERO) for k in range(64)]
+                bb = Bits(crate, {('p', 'hash'): hv}, {**e1.phi_ops, **e2.phi_ops})
+                v1, v2 = bb.ev(r1.ret), bb.ev(r2.ret)
+                if not (isinstance(v1, list) and v1 == v2):
+                    bad = (d, "base cell %s: %s vs %s" % (top, fmt(v1)[:80] if isinstance(v1, list) else v1, fmt(v2)[:80] if isinstance(v2, list) else v2)); break
+            if bad: break
+        ctx.report(clause, "%s:agrees-with-free-function" % path, bad is None,
+                   "with the receiver's fields of Layer::new(d), %s(hash) = %s(d, hash) bit for bit, d = 0..=29, all hashes" % (path, ref) if bad is None else
+                   "%s differs from %s at depth %s: %s" % (path, ref, bad[0], bad[1]), at=b.span)
+        n += 1
+    return n
+
+
 def run(ctx):
     n = zoc_config(ctx, "rel")
     n2 = zoc_config(ctx, "bmi2")
@@ -226,6 +277,7 @@ def run(ctx):
         ctx.floor("zoc-impls[test]", n3, 6)
     nu = uniq(ctx, ctx.crate("rel"))
     ctx.floor("uniq-obligations", nu, 62)
+    ctx.floor("uniq-methods", uniq_methods(ctx, ctx.crate("rel")), 2)
     ctx.assume("x86-64 little-endian target for transmute between integers and byte arrays (asserted from the target data layout)")
     ctx.assume("semantics of _pdep/_pext as bit scatter/gather under a constant mask (Intel SDM)")
     ctx.extra["exhaustive"] = True
